@@ -6,10 +6,22 @@ V = os.path.dirname(os.path.abspath(__file__))
 
 # id -> (category, technique, text, note, design_ref)
 CHECKS = {
+ "C09": ("exploration",
+  "runtime monitor: scripted operation programs vs a byte-FIFO model with goroutine-state (sync.Cond.Wait) inspection for block/wake; free-running writer/reader under the Go race detector with a stream-prefix/drain oracle",
+  "Thousands of seeded programs of Write/Read/Buffered/Available/Close (chunks 0,1,cap-1,cap,cap+1,2cap+3; close at any step by either side; mem 4-12 KiB and file 4-8 MiB pipes) are executed one operation at a time; a FIFO model predicts 'result or blocks' and the parked/woken state of the real goroutine is read from runtime.Stack, so lost wake-ups and spurious blocking are decided without timers; data is position-coded. Free-running concurrent runs add interleavings under -race (any race report in pipe code is a violation).",
+  "Trusted: the 60-line FIFO model; runtime.Stack state names. One writer + one reader goroutine as the property states.", "DESIGN.md §5/C09"),
+ "C10": ("exploration",
+  "reference-codec monitor: strict independent RESP codec classifies every generated value, stream and single-point mutant; tool result compared value-for-value and byte-for-byte (offset)",
+  "Random value trees and inline lines are round-tripped and decoded from LF-interleaved streams through 16/100/4096-byte bufio over 1-byte and odd-chunk readers, comparing values after the whole stream was consumed and the Decoder offset after every value with the bytes really consumed; for ~250 (quick) / 2500 (thorough) encodings <=200 bytes every delete/replace/insert position and truncation is classified by the reference as must-error / valid(value) / unclassified and compared with the tool. Stream decoding runs in child processes because the offset API aborts the process on error.",
+  "Trusted: lib/refresp (strict RESP + the two documented leniencies). Lenient numeric forms (+5, 007) and huge lengths are skipped and counted.", "DESIGN.md §5/C10"),
  "C13": ("exploration",
   "reference-model monitor: literal statement over an independent Redis key-spec table, exhaustive to a key-count bound",
   "Every command of the tool table x every valid arity up to 4 (quick) / 6 (thorough) keys x all 2^n pass/fail patterns x whitelist/blacklist is rewritten by the real filter and compared argv-for-argv with the literal statement evaluated over an independently typed key-spec table; plus checkpoint keys, commands outside the table, no-filter identity. Exhaustive to the bound.",
   "Trusted: the reference key-spec table (Redis first/last/step) and that pass/fail is controlled by key prefix only.", "DESIGN.md §5/C13"),
+ "C18": ("exploration",
+  "runtime monitor: scripted programs vs exact offset model with goroutine-state inspection (up to 3 simultaneous waiters); concurrent histories recorded at the API boundary and checked for linearizability with porcupine; interval oracle for ring-crossing writes; Go race detector",
+  "Seeded programs of Write/ReadAt/WaitAt/DataRange/NewReader/SeekTo/IsValid/Reader.Read/Close run against the model {wpos, capacity, closed} with position-coded content, offsets aimed at both validity edges (wpos-cap-1..+1, wpos..+1), totals up to dozens of laps; waiting and wake-up of every parked reader are read from goroutine states. 150/1500 concurrent histories (1 writer, 2-4 readers) are checked with porcupine v1.3.0 (60 s timeout => inconclusive); ring-crossing writes under an interval oracle; any -race report in backlog code is a violation.",
+  "Trusted: the offset model (30 lines) and porcupine. DataRange after Close is not asserted (statement is silent).", "DESIGN.md §5/C18"),
  "C15": ("exploration",
   "reference-model monitor: spec-derived slot function and bitwise CRC16 run against every enumerated/random key; result re-hashing for chosen checkpoint keys",
   "Every string over {'{','}',a,b} up to length 8 (quick) / 10 (thorough) plus 60k/600k random binary keys go through KeyToSlot and are compared with a slot function typed from the Cluster specification; all three CRC16 copies are compared with a bitwise CRC16/XMODEM; every ChoseSlotInRange / findKeyInRange result is re-hashed by the reference and must land in range and be excluded by FilterKey (thorough: all 16384 singleton ranges). Exhaustive to the stated bound, sampled beyond it.",
